@@ -101,6 +101,17 @@ def gen_plan(seed, tier):
                     "acts": [a for a in G.gen_actions(r, nports, rich=True)
                              if not (a[0] == "output" and a[1] == W.OFPP_TABLE)],
                     "cookie": i, "idle": 0, "hard": 0, "flags": 0})
+      rfb = Rng(mix(seed, "fmbuf", i))
+      if rfb.chance(0.2):
+        # the flow_mod also names a buffered packet: whatever the command
+        # does to the table (add, modify an entry that is there, fall back
+        # to add), the packet leaves through this action list
+        steps[-1]["buffer"] = rfb.pick(["last", "last", "first"])
+        prev = [st for st in steps[:-1] if st["op"] == "flow_mod"]
+        if prev and rfb.chance(0.6):
+          old = rfb.pick(prev)
+          steps[-1].update(m=old["m"], prio=old["prio"],
+                           cmd=rfb.pick([W.FC_MODIFY, W.FC_MODIFY_STRICT]))
     elif k == "frame":
       fs, port = r.pick(frames)
       if r.chance(0.3):
